@@ -117,6 +117,11 @@ class Dag:
         if k == "Un":
             return ("un", rv[1], self.expr(rv[2], depth))
         if k in ("Ref", "RawPtr"):
+            pl = rv[2]
+            if pl["p"] == ["*"]:
+                inner = self.local(pl["l"], depth + 1)      # plain re-borrow `&*x`
+                if inner[0] in ("call", "param", "phi", "variant", "field"):
+                    return inner
             path = ts.place_path(self.body, rv[2])
             if path is not None:
                 return ("ref", ts.strip_env(path))
@@ -138,7 +143,7 @@ class Dag:
             f = c.get("resolved") or c.get("f") or "?"
             name = c.get("fname")
             args = [self.expr(a, depth) for a in c["args"]]
-            if f.startswith(ATOMIC):
+            if f.startswith(ATOMIC) and f != ATOMIC + "new":
                 meth = f[len(ATOMIC):]
                 path = ts.access_path(self.body, c["args"][0]) if c["args"] else None
                 path = ts.strip_env(path) if path is not None else ("?",)
